@@ -39,7 +39,7 @@ PARTIAL = ['C18_float_rational_partial: the float parser is proved to compute th
 PER_FILE = 16
 I64MAX = 2 ** 63 - 1
 I64MIN = -2 ** 63
-FMT_INT, PARSE_INT, FMT_LIST, PARSE_LIST, PARSE_FLOAT, FMT_FLOAT = range(6)
+FMT_INT, PARSE_INT, FMT_LIST, PARSE_LIST, PARSE_FLOAT, FMT_FLOAT, DIGIT_MATRIX = range(7)
 # smallest value of k digits that the pinned width computation already gives k+1 digits
 CARRY = {15: 10 ** 15 - 2, 16: 10 ** 16 - 21, 17: 10 ** 17 - 407, 18: 10 ** 18 - 4031}
 
@@ -193,6 +193,26 @@ def generate(tier, seed):
     # a column with '+' but no '-' (the sign test of the file reader), and one with '-' but no '+'
     for texts in (['+5', '12', '007', '+0'], ['-5', '12', '007', '-0']):
         cases.append(_mk(PARSE_INT, texts, [[1, [0, 1, 2, 3]], [0, [0, 1, 2, 3]], [1, [1, 2]], [1, [3, 0]]]))
+    # ---- the digit matrix at buffer level: fields anywhere in a buffer, in particular a short field that ends
+    #      closer to the buffer start than the widest field is long (window index negative -> NumPy wraps around)
+    n_dm = 16 if quick else 80
+    for i in range(n_dm):
+        m = rng.randint(2, 4) if i % 2 == 0 else rng.randint(5, 10)
+        fields = [str(_rand_int(rng, signed=False)) if rng.random() < 0.8 else '0' * rng.randint(1, 3) + str(rng.randint(0, 99))
+                  for _ in range(m)]
+        if i % 3 == 0:
+            fields[0] = str(rng.randint(0, 9))                      # a 1-digit field at offset 0 ...
+            fields[rng.randrange(1, m)] = str(10 ** 18 + rng.randint(0, 9))   # ... and a 19-digit one later
+        lead = '' if i % 3 == 0 else rng.choice(['', 'x', 'ab\t'])
+        data, ivs = lead, []
+        for f in fields:
+            ivs.append([len(data), len(data) + len(f)])
+            data += f + rng.choice(['\t', '\n', '\tq\n'])
+        runs = (_all_runs(m) if m <= 3 else _some_runs(m, rng, [0]))
+        runs = [[r, [j + 1 for j in idx]] for r, idx in runs]      # row 0 is the buffer
+        cases.append(_mk(DIGIT_MATRIX, [data] + ivs, runs))
+        # the same fields as the FIRST column of a file (the first field then starts at buffer offset 0)
+        cases.append(_mk(PARSE_INT, fields, [[4, list(range(m))], [0, list(range(m))]] + [[4, [j]] for j in range(min(m, 3))]))
     # ---- small mixed batches with every ordered sub-batch
     n_small = 24 if quick else 150
     for i in range(n_small):
@@ -273,6 +293,11 @@ def _classes():
         a: int
 
     @bnpdataclass
+    class IntRowFirst:
+        a: int
+        name: str
+
+    @bnpdataclass
     class FloatRow:
         name: str
         f: float
@@ -286,7 +311,7 @@ def _classes():
     class ListRowFirst:
         l: List[int]
         name: str
-    for k, c in (('int', IntRow), ('float', FloatRow), ('list', ListRow), ('list_first', ListRowFirst)):
+    for k, c in (('int', IntRow), ('int_first', IntRowFirst), ('float', FloatRow), ('list', ListRow), ('list_first', ListRowFirst)):
         _DC[k] = (c, get_bufferclass_for_datatype(c, delimiter='\t', has_header=True))
     return _DC
 
@@ -335,6 +360,8 @@ def _run(kind, route, sel, d):
             return [int(v) for v in strops.str_to_int(as_encoded_array(sel))]
         if route == 1:
             return [int(v) for v in _read_table(d, 'int', sel).a]
+        if route == 4:
+            return [int(v) for v in _read_table(d, 'int_first', sel, first=True).a]
         from bionumpy.io.matrix_dump import parse_matrix
         m = parse_matrix('a\n' + ''.join(t + '\n' for t in sel), field_type=int, rowname_type=None, sep='\t')
         return [int(v) for v in m.data.ravel()]
@@ -364,6 +391,31 @@ def _run(kind, route, sel, d):
     raise ValueError(kind)
 
 
+def _pow_keys(case):
+    """every k for which the float parser evaluates 10.**k on the texts of this case"""
+    ks = set()
+    for t in case.get('_float_texts', []):
+        mant, _, ex = t.partition('e')
+        ks.update(range(0, len(mant) + 1))
+        if ex:
+            try:
+                ks.add(int(ex))
+            except ValueError:
+                pass
+    return sorted(ks)
+
+
+def _digit_matrix(data, ivs):
+    import numpy as np
+    from bionumpy.encoded_array import as_encoded_array
+    from bionumpy.io.file_buffers import move_intervals_to_digit_array
+    arr = as_encoded_array(data)
+    starts = np.array([iv[0] for iv in ivs], dtype=int)
+    ends = np.array([iv[1] for iv in ivs], dtype=int)
+    m = move_intervals_to_digit_array(arr, starts, ends, '0')
+    return [bytes(np.asarray(row.raw() if hasattr(row, 'raw') else row, dtype=np.uint8)).decode('latin1') for row in m]
+
+
 def observe(case):
     import warnings
     warnings.simplefilter('ignore')
@@ -375,7 +427,10 @@ def observe(case):
         for route, idx in case['runs']:
             sel = [case['rows'][i] for i in idx]
             try:
-                r = _run(case['kind'], route, sel, d)
+                if case['kind'] == DIGIT_MATRIX:
+                    r = _digit_matrix(case['rows'][0], sel)
+                else:
+                    r = _run(case['kind'], route, sel, d)
                 if len(r) != len(sel):
                     r = dict(error='length %d for %d rows' % (len(r), len(sel)))
             except Exception as e:
@@ -383,11 +438,25 @@ def observe(case):
             outs.append(r)
     finally:
         shutil.rmtree(d, ignore_errors=True)
-    return dict(runs=outs)
+    res = dict(runs=outs)
+    # the platform's 10.**k for every exponent the float parser needs on these texts (assumption E3 of the model)
+    texts = []
+    if case['kind'] == PARSE_FLOAT:
+        texts = list(case['rows'])
+    elif case['kind'] == FMT_FLOAT:
+        texts = [x[1] for r in outs if not isinstance(r, dict) for x in r]
+    if texts:
+        ks = _pow_keys(dict(_float_texts=texts))
+        with np.errstate(all='ignore'):
+            vals = 10. ** np.array(ks, dtype=np.int64)
+        res['pow'] = [[k, d2b(float(v))] for k, v in zip(ks, vals)]
+    return res
 
 
 # ----------------------------------------------------------------------------- Coq emitter
 def _row_in(kind, row):
+    if kind == DIGIT_MATRIX:
+        return hx(row) if isinstance(row, str) else zl(row)
     if kind in (FMT_INT, FMT_FLOAT):
         return zl([row])
     if kind == FMT_LIST:
@@ -396,7 +465,7 @@ def _row_in(kind, row):
 
 
 def _row_out(kind, out):
-    if kind in (FMT_INT, FMT_LIST):
+    if kind in (FMT_INT, FMT_LIST, DIGIT_MATRIX):
         return hx(out)
     if kind in (PARSE_INT, PARSE_FLOAT):
         return zl([out])
@@ -414,8 +483,9 @@ def to_coq(case, o):
         else:
             ot = '(Some %s)' % clist([_row_out(kind, x) for x in out], 'list Z')
         runs.append('(%s, %s, %s)' % (cz(route), zl(idx), ot))
-    return '{| k_kind := %s; k_rows := %s; k_runs := %s |}' % (
-        cz(kind), clist([_row_in(kind, r) for r in case['rows']], 'list Z'), clist(runs, 'run'))
+    pw = clist(['(%s, %s)' % (cz(k), cz(b)) for k, b in o.get('pow', [])], '(Z * Z)')
+    return '{| k_kind := %s; k_rows := %s; k_runs := %s; k_pow := %s |}' % (
+        cz(kind), clist([_row_in(kind, r) for r in case['rows']], 'list Z'), clist(runs, 'run'), pw)
 
 
 # ----------------------------------------------------------------------------- evidence helpers
@@ -436,6 +506,8 @@ def nontrivial(case, o):
         return any(len(r) > 1 for r in case['rows'])
     if kind == PARSE_FLOAT:
         return any(('.' in r or 'e' in r) for r in case['rows'])
+    if kind == DIGIT_MATRIX:
+        return len(set(b - a for a, b in case['rows'][1:])) > 1
     return True
 
 
@@ -443,13 +515,13 @@ def describe(case, o):
     rows = case['rows']
     if case['kind'] == FMT_FLOAT:
         rows = [repr(b2d(b)) for b in rows]
-    return dict(kind=['format ints', 'parse ints', 'format int lists', 'parse int lists', 'parse floats', 'format floats'][case['kind']],
+    return dict(kind=['format ints', 'parse ints', 'format int lists', 'parse int lists', 'parse floats', 'format floats', 'digit matrix'][case['kind']],
                 rows=rows[:8], n_rows=len(rows), n_runs=len(case['runs']),
                 first_run=(o['runs'][0] if isinstance(o['runs'][0], dict) else o['runs'][0][:8]))
 
 
 def distribution(cases, obs):
-    names = ['format_ints', 'parse_ints', 'format_int_lists', 'parse_int_lists', 'parse_floats', 'format_floats']
+    names = ['format_ints', 'parse_ints', 'format_int_lists', 'parse_int_lists', 'parse_floats', 'format_floats', 'digit_matrix']
     d = dict(cases={n: 0 for n in names}, rows=0, runs=0, converted_rows=0, batch_sizes={}, int_widths={}, routes={},
              exceptions=0, float_exponent_texts=0, float_fraction_texts=0, signed_rows=0)
     for c, o in zip(cases, obs):
@@ -463,6 +535,10 @@ def distribution(cases, obs):
             d['routes'][str(route)] = d['routes'].get(str(route), 0) + 1
         if isinstance(o, dict) and 'runs' in o:
             d['exceptions'] += sum(isinstance(r, dict) for r in o['runs'])
+        if c['kind'] == DIGIT_MATRIX:
+            d['matrix_fields_before_widest'] = d.get('matrix_fields_before_widest', 0) + sum(
+                1 for a, b in c['rows'][1:] if b < max(y - x for x, y in c['rows'][1:]))
+            continue
         for r in c['rows']:
             w = _width(r, c['kind'])
             if w is not None:
@@ -507,6 +583,11 @@ def _bad_rows(case, o):
     for (route, idx), out in zip(case['runs'], o['runs']):
         if isinstance(out, dict):
             return None, out['error'], [case['rows'][i] for i in idx]
+        if kind == DIGIT_MATRIX:
+            fields = [case['rows'][0][case['rows'][i][0]:case['rows'][i][1]] for i in idx]
+            w = max(len(f) for f in fields)
+            bad += [(f, x) for f, x in zip(fields, out) if x != f.rjust(w, '0')]
+            continue
         for i, x in zip(idx, out):
             row = case['rows'][i]
             if kind == FMT_INT and x != str(row):
